@@ -5,7 +5,7 @@
    is in the section "receiver" below as far as it is proved. *)
 From Via Require Import M_Char M_Parse M_Receive P_Parse.
 From Via Require Import P_Frag P_Term.
-From Via Require Import M_Imp M_Loop M_Hdr Gen_Parse P_Imp P_Loop P_Hdr.
+From Via Require Import M_Imp M_Loop M_Hdr M_Msg Gen_Parse P_Imp P_Loop P_Hdr P_Msg.
 Local Open Scope N_scope.
 
 Theorem C01_request_line_fragments : forall L a r b, rl_valid r = false ->
@@ -277,3 +277,20 @@ Example C01_header_block_source_example :
   Some (true, mk_hs [([104],[120]); ([97],[49])] (fl_store fl_init) [1; 0; 1; 4], [90]).
 Proof. vm_compute. reflexivity. Qed.
 Print Assumptions C01_header_block_is_the_source.
+
+(* rx_request::parse(iter, end) - request line, then header block, then valid - translated as well (a term of M_Msg.v
+   whose calls run the translated functions of the layers below): the model's rq_parse, about which the theorems of
+   this file speak, is that function: the whole request head parser, from the characters up, is the translated source
+   under the meaning of M_Imp / M_Loop / M_Hdr / M_Msg (message_headers::add being the model's fields_add). *)
+Theorem C01_request_head_is_the_source : forall L q buf fuel, hd_ok (rq_headers q) -> (length buf + 2 <= fuel)%nat ->
+  mrun (rl_lim L) (fl_lim L) (hd_lim L) (rl_code_of L) (hd_code_of L) fuel rq_parse_src (rq_store q) buf =
+  Some (let '(q', rest, p) := rq_parse L q buf in (is_done p, rq_store q', rest)).
+Proof. exact rq_parse_is_the_source. Qed.
+Example C01_request_head_source_example :
+  let L := mk_limits 8190 8 100 65534 1024 8 65534 65534 false in
+  mrun (rl_lim L) (fl_lim L) (hd_lim L) (rl_code_of L) (hd_code_of L) 60 rq_parse_src (rq_store rq_init)
+       [71;69;84;32;47;32;72;84;84;80;47;49;46;49;13;10;72;111;115;116;58;32;104;13;10;13;10;66] =
+  Some (true, mk_ms (mk_store 12 [[71;69;84]; [47]] [1; 49; 49; 1; 0])
+                    (mk_hs [([104;111;115;116],[104])] (fl_store fl_init) [1; 0; 1; 5]) 1, [66]).
+Proof. vm_compute. reflexivity. Qed.
+Print Assumptions C01_request_head_is_the_source.
